@@ -12,6 +12,7 @@
 #include "common/inputs.hpp"
 #include "common/types.hpp"
 #include "common/vh.hpp"
+#include "common/hwwatch.hpp"
 
 #include <sys/mman.h>
 #ifdef VH_VALGRIND
@@ -20,6 +21,7 @@
 
 using namespace vh;
 
+static bool g_hw = false;                  // hardware watchpoints usable (and not running under valgrind)
 static unsigned char* g_pages = nullptr;  // 3 pages: [PROT_NONE][RW][PROT_NONE]
 static const std::size_t PG = 4096;
 static unsigned char* mid_begin() { return g_pages + PG; }
@@ -135,13 +137,17 @@ struct MemDrv {
             e0 = VALGRIND_COUNT_ERRORS;
         }
 #endif
+        // byte-exact footprint in every configuration: hardware watchpoints on the bytes adjacent to the addressed elements
+        HwWatch hw;
+        const bool hwon = g_hw && hw.watch_around(pl.p, pl.p + k, true, true) > 0;
         int sg = guarded([&] { r = avel::to_array(f(ptr)); });
+        if (hwon) vg += ",\"hw\":" + std::to_string(hw.disarm());
 #ifdef VH_VALGRIND
         if (which != 3) {
             unsigned long e1 = VALGRIND_COUNT_ERRORS;
             if (pl.lead) VALGRIND_MAKE_MEM_DEFINED(pl.p - pl.lead, pl.lead);
             if (pl.tail) VALGRIND_MAKE_MEM_DEFINED(pl.p + k, pl.tail);
-            vg = ",\"vgerr\":" + std::to_string(e1 - e0);
+            vg += ",\"vgerr\":" + std::to_string(e1 - e0);
         }
 #endif
         std::string s = head("load", n) + ",\"place\":\"" + pl.name + "\",\"src\":" + bytes(src.data(), k) + ",\"r\":" +
@@ -163,8 +169,11 @@ struct MemDrv {
             std::memcpy(before.data(), base, win);
         }
         S* ptr = reinterpret_cast<S*>(pl.p);
+        HwWatch hw;
+        const bool hwon = g_hw && hw.watch_around(pl.p, pl.p + k, true, true) > 0;
         int sg = guarded([&] { f(ptr, V(v)); });
-        std::string s = head("store", n) + ",\"place\":\"" + pl.name + "\",\"lead\":" + std::to_string(pl.lead) + ",\"v\":" +
+        std::string hws = hwon ? ",\"hw\":" + std::to_string(hw.disarm()) : std::string();
+        std::string s = head("store", n) + hws + ",\"place\":\"" + pl.name + "\",\"lead\":" + std::to_string(pl.lead) + ",\"v\":" +
                         bytes(v.data(), N * W) + ",\"before\":" + bytes(before.data(), which == 3 ? 0 : win) + ",\"after\":" +
                         bytes(base, which == 3 ? 0 : win) + ",\"sig\":\"" + signame(sg) + "\"}";
         emit_raw(s, tn, form);
@@ -199,6 +208,23 @@ struct MemDrv {
     typedef avel::Vector<IS, N> IV;
     enum { ARENA = 48 };
 
+    // watch up to four arena elements that no active lane addresses, neighbours of addressed ones first
+    int watch_unaddressed(HwWatch& hw, const S* arena, const int* act, unsigned k) {
+        bool addressed[ARENA] = {};
+        for (unsigned j = 0; j < k; ++j) addressed[act[j]] = true;
+        const void* w[4];
+        int cnt = 0;
+        bool taken[ARENA] = {};
+        for (unsigned j = 0; j < k && cnt < 4; ++j)
+            for (int d = 1; d >= -1 && cnt < 4; d -= 2) {
+                int e = act[(j + serial) % k] + d;
+                if (e >= 0 && e < ARENA && !addressed[e] && !taken[e]) { taken[e] = true; w[cnt++] = arena + e; }
+            }
+        for (int e = int(serial % ARENA), t = 0; t < ARENA && cnt < 4; ++t, e = (e + 7) % ARENA)
+            if (!addressed[e] && !taken[e]) { taken[e] = true; w[cnt++] = arena + e; }
+        return hw.watch_elements(w, cnt, W);
+    }
+
     template<class F>
     void one_gather(const char* form, unsigned long n, F f) {
         const unsigned k = unsigned(n < N ? n : N);
@@ -209,10 +235,12 @@ struct MemDrv {
         ++serial;
         int base = int(rng.next() % ARENA);
         std::array<IS, N> idx;
+        int act[N] = {};
         std::string idxs = "[";
         for (unsigned j = 0; j < N; ++j) {
             if (j < k) {
                 int e = int(rng.next() % ARENA);
+                act[j] = e;
                 idx[j] = IS(e - base);
                 idxs += (j ? "," : "") + std::to_string(e - base);
             } else {
@@ -224,8 +252,11 @@ struct MemDrv {
         opaque(idx);
         A r{};
         const S* p = arena + base;
+        HwWatch hw;
+        const bool hwon = g_hw && watch_unaddressed(hw, arena, act, k) > 0;
         int sg = guarded([&] { r = avel::to_array(f(p, IV(idx))); });
-        std::string s = head("gather", n) + ",\"place\":\"end\",\"base\":" + std::to_string(base) + ",\"idx\":" + idxs + ",\"mem\":" +
+        std::string hws = hwon ? ",\"hw\":" + std::to_string(hw.disarm()) : std::string();
+        std::string s = head("gather", n) + hws + ",\"place\":\"end\",\"base\":" + std::to_string(base) + ",\"idx\":" + idxs + ",\"mem\":" +
                         bytes(arena, ARENA * W) + ",\"r\":" + (sg ? std::string("[]") : bytes(r.data(), N * W)) + ",\"sig\":\"" +
                         signame(sg) + "\"}";
         emit_raw(s, tn, form);
@@ -243,11 +274,13 @@ struct MemDrv {
         std::array<IS, N> idx;
         std::string idxs = "[";
         bool used[ARENA] = {};
+        int act[N] = {};
         for (unsigned j = 0; j < N; ++j) {
             if (j < k) {
                 int e;
                 do { e = int(rng.next() % ARENA); } while (used[e]);   // distinct active targets
                 used[e] = true;
+                act[j] = e;
                 idx[j] = IS(e - base);
                 idxs += (j ? "," : "") + std::to_string(e - base);
             } else {
@@ -257,8 +290,11 @@ struct MemDrv {
         idxs += "]";
         opaque(idx);
         S* p = arena + base;
+        HwWatch hw;
+        const bool hwon = g_hw && watch_unaddressed(hw, arena, act, k) > 0;
         int sg = guarded([&] { f(p, V(v), IV(idx)); });
-        std::string s = head("scatter", n) + ",\"place\":\"end\",\"base\":" + std::to_string(base) + ",\"idx\":" + idxs + ",\"v\":" +
+        std::string hws = hwon ? ",\"hw\":" + std::to_string(hw.disarm()) : std::string();
+        std::string s = head("scatter", n) + hws + ",\"place\":\"end\",\"base\":" + std::to_string(base) + ",\"idx\":" + idxs + ",\"v\":" +
                         bytes(v.data(), N * W) + ",\"mem\":" + bytes(before.data(), ARENA * W) + ",\"after\":" + bytes(arena, ARENA * W) +
                         ",\"sig\":\"" + signame(sg) + "\"}";
         emit_raw(s, tn, form);
@@ -353,6 +389,10 @@ int main(int argc, char** argv) {
     std::memset(g_pages, 0x5A, 3 * PG);
     if (mprotect(g_pages, PG, PROT_NONE) || mprotect(g_pages + 2 * PG, PG, PROT_NONE)) return 2;
     install_handlers();
+#ifndef VH_VALGRIND
+    g_hw = !std::getenv("VH_NO_HWWATCH") && HwWatch::available() && HwWatch::masked_out_is_silent();
+#endif
+    std::fprintf(stderr, "vh: hwwatch=%d\n", int(g_hw));
 #define RUN_MEM(X)                          \
     {                                       \
         MemDrv<avel::vec##X> d(#X, seed);   \
